@@ -197,3 +197,48 @@ Theorem parsed_media_roundtrip_small : forall s p, parse_media s = Ok p -> media
 Proof.
   intros s p H Hs. apply (parsed_media_roundtrip s p H). apply (parsed_media_wf s p H). apply (parsed_media_domain s p H Hs).
 Qed.
+
+(* the slid window of a parse result, with no hypothesis on floats *)
+From hls.Proofs Require Import Slide.
+Theorem slide_roundtrip_small : forall s p k, parse_media s = Ok p -> media_small p = true -> (k < List.length (mp_segs p))%nat ->
+  parse_media (print_media (slide k p)) = Ok (reread (slide k p))
+  /\ mp_mseq (reread (slide k p)) = mp_mseq p + N.of_nat k
+  /\ Forall2 seg_same (mp_segs (reread (slide k p))) (skipn k (mp_segs p)).
+Proof.
+  intros s p k H Hs Hk. destruct (parsed_media_built s p H) as [raws Hb].
+  exact (slide_roundtrip p raws k (parsed_media_wf s p H (parsed_media_domain s p H Hs)) Hb Hk).
+Qed.
+
+(* ---------- master playlists: the TIME-OFFSET of a parse result needs no hypothesis ---------- *)
+Definition mstart_ok (s : mstate) : Prop := match ms_start s with Some st => wf_start st = true | None => True end.
+Lemma mstep_start : forall s l s', mstart_ok s -> item_fd l -> mstep s l = Ok s' -> mstart_ok s'.
+Proof.
+  intros s l s' A Hl H. destruct l as [t| |u]; cbn [mstep] in H; try discriminate.
+  - destruct (in_kinds (kind_of t) master_rejects); [discriminate|].
+    destruct t; try discriminate; inversion H; subst; unfold mstart_ok in *; cbn [ms_start]; cbn [item_fd] in Hl; assumption.
+  - inversion H; subst. exact A.
+Qed.
+Lemma mrun_lines_start : forall ls s s', mstart_ok s -> (forall l, In (Ok l) ls -> item_fd l) -> mrun_lines s ls = Ok s' -> mstart_ok s'.
+Proof.
+  induction ls as [|r ls IH]; intros s s' Hs Hall H; cbn [mrun_lines] in H.
+  - inversion H; subst. exact Hs.
+  - apply bind_ok in H. destruct H as [l [Hr H]]. subst r. apply bind_ok in H. destruct H as [s1 [Hs1 H]].
+    apply (IH s1 s'); [|intros y Hy; apply Hall; right; exact Hy | exact H].
+    apply (mstep_start s l s1 Hs); [apply Hall; left; reflexivity | exact Hs1].
+Qed.
+Definition rates_ok (p : MasterPlaylist) : bool := forallb floats_variant (ma_variants p).
+Theorem parsed_master_floats : forall s p, parse_master s = Ok p -> rates_ok p = true -> floats_master p = true.
+Proof.
+  intros s p H Hr. unfold parse_master in H. apply bind_ok in H. destruct H as [rest [_ H]].
+  unfold parse_master_items in H. apply bind_ok in H. destruct H as [st [Hrun H]].
+  assert (Hall : forall l, In (Ok l) (lines_of rest) -> item_fd l).
+  { intros l Hl. unfold lines_of in Hl. apply (items_item_fd (clean_lines rest) l Hl). }
+  pose proof (mrun_lines_start _ _ _ (I : mstart_ok ms_init) Hall Hrun) as A.
+  unfold finish_master in H.
+  match type of H with (if validate_master ?q then _ else _) = _ => destruct (validate_master q); [|discriminate] end.
+  inversion H; subst. unfold floats_master. unfold rates_ok in Hr. cbn [ma_variants ma_start] in *. rewrite Hr. cbn [andb].
+  unfold mstart_ok in A. destruct (ms_start st); [exact A | reflexivity].
+Qed.
+Theorem parsed_master_roundtrip_rates : forall s p, parse_master s = Ok p -> rates_ok p = true ->
+  parse_master (print_master p) = Ok p.
+Proof. intros s p H Hr. apply (parsed_master_roundtrip s p H). apply (parsed_master_floats s p H Hr). Qed.
